@@ -170,6 +170,16 @@ pub fn run(r: &mut Runner) -> &'static str {
     let n = r.n(400_000, 10_000_000);
     r.random("c01.grammar", n, 160, &gen_case, &judge);
 
+    // chains of related inputs judged back to back on one thread: the verdict on an input must not depend on what was
+    // parsed before it (a line, then the same line with one more digit / one character less / another trailer / ...)
+    let n = r.n(60_000, 1_500_000);
+    r.random("c01.chains", n, 260, &|t| gen::gen_chain(t, &gen_case), &|c: &crate::engine::Chain, st: &mut Stats| {
+        for x in &c.0 {
+            judge(x, st)?;
+        }
+        Ok(())
+    });
+
     // all token sequences up to k tokens from each head
     let k: usize = if r.quick() { 4 } else { 5 };
     let k0: usize = if r.quick() { 5 } else { 6 };
